@@ -17,7 +17,7 @@ ASSUMPTIONS = ["DKW bound at alpha=1e-12 on randomized PIT values (harness RNG i
                "lineage models carry no repeated rules, so a daughter's first row is the partition itself"]
 RUN_OPTS = {"batch_size": 4, "timeout_per_case": 120.0}
 MINIMA = {"*": {"partitions": 20000, "lineages": 30, "divisions_checked": 100, "schnitz_rows_checked": 3000, "pit_samples": 20000,
-                "zero_propensity_cells": 5}}
+                "zero_propensity_cells": 5, "divisions_with_decoy_triggers": 50}}
 
 
 def generate(tier, seed):
@@ -51,6 +51,9 @@ def generate(tier, seed):
                       "reactions": rnd.choice(["normal", "normal", "none", "exhausting_only"]),
                       "vmode": rnd.choice(["binomial", "perfect"]), "noise": rnd.choice([0.0, 0.3, 0.8]),
                       "cells": rnd.choice([1, 1, 2]), "safe": rnd.random() < 0.4,
+                      # division rules / events that can never fire, each with a splitter whose modes are the opposite of the live
+                      # trigger's: the partition must be the one attached to the trigger that actually fired
+                      "decoys": {k: rnd.choice([0, 0, 1, 2]) for k in ("rules_before", "rules_after", "events_before", "events_after")},
                       "k": {"kxy": gen.nice(rnd, 0.5, 4), "kyx": gen.nice(rnd, 0.5, 4), "kn": gen.nice(rnd, 0.5, 5), "ka": gen.nice(rnd, 1, 6)},
                       "x0": {"X": rnd.randint(4, 30), "Y": rnd.randint(0, 20), "G": rnd.randint(1, 3), "Nc": 0, "A": rnd.randint(2, 12)},
                       "seed": util.seed64(PROPERTY, tier, seed, "lin%d" % i) % (2 ** 31)})
@@ -195,6 +198,23 @@ def build_lineage_model(case):
         M.create_volume_rule("ode", {"equation": "%r*volume" % g})
     else:
         M.create_volume_event("linear volume", {"growth_rate": 0.05}, "massaction", {"k": 20.0 / case["cycle"], "species": ""})
+    dec = case.get("decoys") or {}
+    opposite = [{"X": "duplicate", "Y": "duplicate", "G": "binomial", "Nc": "duplicate", "A": "perfect", "volume": "duplicate"},
+                {"X": "perfect", "Y": "binomial", "G": "perfect", "Nc": "duplicate", "A": "duplicate", "volume": "duplicate"}]
+    made = [0]
+
+    def decoy(kind):
+        vd = LineageVolumeSplitter(M, options=dict(opposite[made[0] % 2]), partition_noise=0.0)
+        made[0] += 1
+        if kind == "rule":
+            M.create_division_rule(["time", "volume"][made[0] % 2], {"threshold": 1e6}, vd)
+        else:
+            M.create_division_event("division", {}, "massaction", {"k": 0.0, "species": ""}, vd)
+
+    for _ in range(dec.get("rules_before", 0)):
+        decoy("rule")
+    for _ in range(dec.get("events_before", 0)):
+        decoy("event")
     if case["division"] == "time":
         M.create_division_rule("time", {"threshold": case["cycle"]}, vs)
     elif case["division"] == "volume":
@@ -205,6 +225,10 @@ def build_lineage_model(case):
         M.create_division_rule("general", {"equation": "volume - 1.9"}, vs)
     else:
         M.create_division_event("division", {}, "general", {"rate": "%r*Heaviside(volume - 1.5)" % (3.0 / case["cycle"])}, vs)
+    for _ in range(dec.get("rules_after", 0)):
+        decoy("rule")
+    for _ in range(dec.get("events_after", 0)):
+        decoy("event")
     if case["death"] == "rule":
         M.create_death_rule("species", {"specie": "Nc", "threshold": 40, "comp": ">"})
     elif case["death"] == "event":
@@ -273,6 +297,8 @@ def run_lineage(case):
         if dau is not None and dau[0] is not None:
             d1, d2 = dau
             C["divisions_checked"] += 1
+            if sum((case.get("decoys") or {}).values()):
+                C["divisions_with_decoy_triggers"] += 1
             for d in (d1, d2):
                 if d.py_get_parent() is not s:
                     bad("links-not-mutual", "schnitz %d: a daughter's parent is not this schnitz" % i)
